@@ -4,6 +4,16 @@ import json, os, subprocess
 VERIF = os.path.dirname(os.path.dirname(os.path.abspath(__file__)))
 
 CHECKS = {
+    "C01": dict(
+        technique="metamorphic stream-decomposition monitor + executable reference model over recorded result streams of generated programs (ASan/UBSan + state-lifecycle hooks)",
+        category="exploration",
+        text="For exhaustively enumerated small programs and seeded random typed ASTs nested in every construct/context pair, the real engine's "
+             "result stream for a producer of several tagged input stacks is compared (a) with the union of its own results per single input stack "
+             "(no model needed) and (b) with a naive state-free reference evaluator written from doc/syntax.rst: multisets always, sequences where "
+             "the documentation fixes the order, presence of diagnostics.  Held on the executions counted in the evidence.",
+        note="Trusts vf/zmodel.py's reading of the documentation (DESIGN.md appendix A) for O1; O2 trusts nothing but the engine's determinism. "
+             "Programs whose outcome the documentation leaves open are skipped and counted.",
+        design="DESIGN.md 5-C01"),
     "C08": dict(
         technique="exact big-integer oracle over recorded operator events (direct calls into int.cc + queries) under ASan/UBSan",
         category="exploration",
